@@ -286,6 +286,7 @@ func computeFacts(tok string) facts {
 type decObs struct {
 	Accepted bool
 	Kind     string // dynamic kind of the returned claims
+	Reported int    // the version the returned claims report (typed kinds; -1 for generic claims)
 	IssOK    bool
 	Typed    map[string]bool
 	Generic  bool
@@ -314,6 +315,25 @@ func dynKind(c jwt.Claims) string {
 
 var typedKinds = []string{"operator", "account", "user", "activation", "authorization_request", "authorization_response"}
 
+// the version the claims themselves report
+func reportedVersion(c jwt.Claims) int {
+	switch x := c.(type) {
+	case *jwt.OperatorClaims:
+		return x.Version
+	case *jwt.AccountClaims:
+		return x.Version
+	case *jwt.UserClaims:
+		return x.Version
+	case *jwt.ActivationClaims:
+		return x.Version
+	case *jwt.AuthorizationRequestClaims:
+		return x.Version
+	case *jwt.AuthorizationResponseClaims:
+		return x.Version
+	}
+	return -1
+}
+
 func observeDecode(tok string, iss string) (o decObs) {
 	o.Typed = map[string]bool{}
 	defer func() {
@@ -325,6 +345,7 @@ func observeDecode(tok string, iss string) (o decObs) {
 	if err == nil && c != nil {
 		o.Accepted = true
 		o.Kind = dynKind(c)
+		o.Reported = reportedVersion(c)
 		o.IssOK = c.Claims().Issuer == iss
 	}
 	if x, err := jwt.DecodeOperatorClaims(tok); err == nil && x != nil {
@@ -490,6 +511,9 @@ func checkAccepted(c *Ctx, ft forged, f facts, o decObs) {
 			c.violation("C05: accepted a token whose header is not type JWT with a NATS Ed25519 algorithm name", inp)
 		case !verdict:
 			c.violation("C01: accepted a token whose signature does not verify, under the payload's issuer, over the text of the declared layout ("+declLayout+")", inp)
+		case o.Kind != "generic" && ((o.Reported >= 2 && !f.Ver2) || (o.Reported <= 1 && !f.Ver1)):
+			inp["reported_version"] = o.Reported
+			c.violation("C01: the accepted claims report a version whose layout text the signature does not verify over (version-2 claims: header.payload; version-1 claims: the payload segment)", inp)
 		case !o.IssOK:
 			c.violation("C01: accepted claims report an issuer other than the payload's", inp)
 		case f.DeclVersion > 2:
